@@ -223,6 +223,10 @@ func (e *p2env) volumeFiles() []string {
 	var v []string
 	for _, en := range ents {
 		n := en.Name()
+		if strings.Contains(n, ".0sib.") {
+			// the neighbouring set the scenarios of C01/C03 put beside this one
+			continue
+		}
 		if strings.HasPrefix(n, base+".") && strings.HasSuffix(n, ".par2") && n != base+".par2" {
 			v = append(v, filepath.Join(e.dir, n))
 		}
